@@ -1,13 +1,153 @@
 /-
-C05 — see DESIGN.md §5.
+C05 — mesh builders put every ring where documented.
+
+The theorems are about Model/Dim3.lean (the model of dim3.rs; the correspondence run compares every
+point of every generated mesh with the crate's) over ℝ.  They hold for every profile, height,
+angle, segment count and path.
+
+PARTIAL: "every end cap is a valid triangulation of the ring it closes" and the volume statement
+rest on C03's partial part and are decided by the oracle run on every generated mesh.
 -/
-import ScadVerif.Lemmas.PtReal
+import ScadVerif.Props.C10
 import ScadVerif.Model.Dim3
 import ScadVerif.Spec.Mesh
 namespace ScadVerif.C05
-open ScadVerif ScadVerif.Dim3
+open ScadVerif ScadVerif.Dim3 ScadVerif.Dim3.Polyhedron
+
+noncomputable instance : HasTrunc ℝ := ⟨fun x => ⌊x⌋₊⟩
 
 /-- the quad strip between two rings has one quad per profile edge -/
 theorem strip_length (n lo hi : Nat) : (strip n lo hi).length = n := by simp [strip]
+
+theorem bind_some {β γ : Type} {o : Option β} {f : β → Option γ} {y : γ} (h : o.bind f = some y) :
+    ∃ x, o = some x ∧ f x = some y := by
+  cases o with
+  | none => simp at h
+  | some x => exact ⟨x, rfl, h⟩
+
+/-- **linear_extrude** places the profile unchanged at z = 0 and at z = height: 2n points, point `i`
+is `(xᵢ, yᵢ, 0)`, point `n + i` is `(xᵢ, yᵢ, height)` -/
+theorem linearExtrude_points (profile : List (Pt2 ℝ)) (height : ℝ) (p : Polyhedron ℝ)
+    (h : linearExtrude profile height = some p) :
+    p.points = profile.map (·.asPt3 0) ++ profile.map (·.asPt3 height) := by
+  unfold linearExtrude at h
+  simp only [Option.bind_eq_bind, Option.pure_def] at h
+  obtain ⟨b, _, h⟩ := bind_some h
+  obtain ⟨t, _, h⟩ := bind_some h
+  injection h with h; subst h; rfl
+
+theorem linearExtrude_ring (profile : List (Pt2 ℝ)) (height : ℝ) (p : Polyhedron ℝ)
+    (h : linearExtrude profile height = some p) (i : Nat) (hi : i < profile.length) :
+    p.points[i]? = some ⟨profile[i].x, profile[i].y, 0⟩ ∧
+    p.points[profile.length + i]? = some ⟨profile[i].x, profile[i].y, height⟩ := by
+  rw [linearExtrude_points profile height p h]
+  constructor
+  · rw [List.getElem?_append_left (by simpa using hi)]; simp [hi, Pt2.asPt3]
+  · rw [List.getElem?_append_right (by simp)]; simp [hi, Pt2.asPt3]
+
+/-- **loft** places `lower` at z = 0 and `upper` at z = height, and rejects differing lengths -/
+theorem loft_points (lower upper : List (Pt2 ℝ)) (height : ℝ) (p : Polyhedron ℝ)
+    (h : loft lower upper height = some p) :
+    lower.length = upper.length ∧
+      p.points = lower.map (·.asPt3 0) ++ upper.map (·.asPt3 height) := by
+  unfold loft at h
+  by_cases hl : lower.length = upper.length
+  · simp only [hl, ne_eq, not_true_eq_false, if_false, Option.bind_eq_bind, Option.pure_def] at h
+    obtain ⟨b, _, h⟩ := bind_some h
+    obtain ⟨t, _, h⟩ := bind_some h
+    injection h with h; subst h; exact ⟨hl, rfl⟩
+  · simp [hl] at h
+
+/-- **cylinder** is the linear extrusion of the `segments`-gon -/
+theorem cylinder_points (r height : ℝ) (seg : Nat) (p : Polyhedron ℝ)
+    (h : cylinder r height seg = some p) :
+    ∃ c, Dim2.circle r seg = some c ∧ p.points = c.map (·.asPt3 0) ++ c.map (·.asPt3 height) := by
+  unfold cylinder at h
+  simp only [Option.bind_eq_bind] at h
+  obtain ⟨c, hc, h⟩ := bind_some h
+  exact ⟨c, hc, linearExtrude_points c height p h⟩
+
+/-! ### rotate_extrude -/
+/-- **copy k of the profile** lies in the half-plane at angle `k·a` about Z: point `(x, z)` of the
+profile goes to `(x·cos ka, x·sin ka, z)` — radius and height are kept -/
+theorem revolveRing_get (profile : List (Pt3 ℝ)) (a : ℝ) (k i : Nat) (hi : i < profile.length) :
+    (revolveRing profile a k)[i]? =
+      some ⟨profile[i].x * dcos (a * k), profile[i].x * dsin (a * k), profile[i].z⟩ := by
+  simp [revolveRing, hi]
+theorem revolveRing_length (profile : List (Pt3 ℝ)) (a : ℝ) (k : Nat) :
+    (revolveRing profile a k).length = profile.length := by simp [revolveRing]
+theorem revolve_keeps_radius (x a : ℝ) (k : Nat) :
+    (x * dcos (a * k)) ^ 2 + (x * dsin (a * k)) ^ 2 = x ^ 2 := by
+  have := C10.cs_unit (a * k)
+  nlinarith [this]
+/-- copy 0 is the profile itself (in the XZ half-plane) -/
+theorem revolveRing_zero (profile2 : List (Pt2 ℝ)) (a : ℝ) :
+    revolveRing (profile2.map fun p => (⟨p.x, 0, p.y⟩ : Pt3 ℝ)) a 0 =
+      profile2.map fun p => (⟨p.x, 0, p.y⟩ : Pt3 ℝ) := by
+  simp [revolveRing, dsin, dcos, toRad]
+
+/-- the point list of a revolve: the profile, then copies 1 … segments-1, then (for a partial
+revolve) copy `segments` at the full angle -/
+theorem rotateExtrude_points (profile2 : List (Pt2 ℝ)) (degrees : ℝ) (segments : Nat) (p : Polyhedron ℝ)
+    (h : rotateExtrude profile2 degrees segments = some p) :
+    let profile : List (Pt3 ℝ) := profile2.map fun q => ⟨q.x, 0, q.y⟩
+    let a := degrees / (segments : ℝ)
+    (0 ≤ degrees ∧ degrees ≤ 360 ∧ 3 ≤ segments) ∧
+    p.points = profile ++ ((List.range (segments - 1)).flatMap fun j => revolveRing profile a (j + 1)) ++
+      (if degrees = 360 then [] else revolveRing profile a segments) := by
+  intro profile a
+  unfold rotateExtrude at h
+  by_cases hr : (0 ≤ degrees ∧ degrees ≤ 360)
+  · by_cases hs : segments < 3
+    · simp [hr, hs] at h
+    · by_cases hd : degrees = 360
+      · have e : Cmp.eqb (360 : ℝ) 360 = true := (eqb_real _ _).mpr rfl
+        subst hd
+        simp [hs, e] at h
+        subst h
+        refine ⟨⟨by norm_num, by norm_num, by omega⟩, ?_⟩
+        simp [profile, a]
+      · have e : Cmp.eqb degrees (360 : ℝ) = false := by
+          rw [Bool.eq_false_iff]; intro hc; exact hd ((eqb_real _ _).mp hc)
+        simp [hr, hs, e] at h
+        obtain ⟨sc, _, h⟩ := bind_some h
+        obtain ⟨ec, _, h⟩ := bind_some h
+        injection h with h; subst h
+        refine ⟨⟨hr.1, hr.2, by omega⟩, ?_⟩
+        simp [hd, profile, a]
+  · have hc : (decide (0 ≤ degrees) && decide (degrees ≤ 360)) = false := by
+      rw [Bool.eq_false_iff]; intro hc; simp at hc; exact hr hc
+    simp [hc] at h
+    exact absurd h.1 hr
+
+/-! ### sweep -/
+theorem sweepRing_length (profile : List (Pt3 ℝ)) (m : Mt4 ℝ) (tw : Option ℝ) (w : ℝ) (at_ : Pt3 ℝ) :
+    (sweepRing profile m tw w at_).length = profile.length := by simp [sweepRing]
+/-- ring point `i`: the profile point, turned about Z by the twist, mapped by the frame as a
+direction (`w = 0`) or point, moved to the path point -/
+theorem sweepRing_get (profile : List (Pt3 ℝ)) (m : Mt4 ℝ) (t w : ℝ) (at_ : Pt3 ℝ) (i : Nat)
+    (hi : i < profile.length) :
+    (sweepRing profile m (some t) w at_)[i]? =
+      some (Pt3.add (Pt4.asPt3 (Mt4.mulVec m ((profile[i].rotatedZ t).asPt4 w))) at_) := by
+  simp [sweepRing, hi]
+
+/-! ### transforms move points and leave faces untouched -/
+theorem translate_faces (p : Polyhedron ℝ) (d : Pt3 ℝ) : (p.translate d).faces = p.faces := rfl
+theorem applyMatrix_faces (p : Polyhedron ℝ) (m : Mt4 ℝ) : (p.applyMatrix m).faces = p.faces := rfl
+theorem rotateX_faces (p : Polyhedron ℝ) (a : ℝ) : (p.rotateX a).faces = p.faces := rfl
+theorem rotateY_faces (p : Polyhedron ℝ) (a : ℝ) : (p.rotateY a).faces = p.faces := rfl
+theorem rotateZ_faces (p : Polyhedron ℝ) (a : ℝ) : (p.rotateZ a).faces = p.faces := rfl
+theorem translate_points (p : Polyhedron ℝ) (d : Pt3 ℝ) :
+    (p.translate d).points = Pt3s.translate p.points d := rfl
+theorem applyMatrix_points (p : Polyhedron ℝ) (m : Mt4 ℝ) :
+    (p.applyMatrix m).points = Mt4.applyMatrix p.points m := rfl
+theorem transforms_keep_count (p : Polyhedron ℝ) (d : Pt3 ℝ) (m : Mt4 ℝ) (a : ℝ) :
+    (p.translate d).points.length = p.points.length ∧
+    (p.applyMatrix m).points.length = p.points.length ∧
+    (p.rotateX a).points.length = p.points.length ∧
+    (p.rotateY a).points.length = p.points.length ∧
+    (p.rotateZ a).points.length = p.points.length := by
+  simp [Polyhedron.translate, Polyhedron.applyMatrix, Polyhedron.rotateX, Polyhedron.rotateY,
+    Polyhedron.rotateZ, Pt3s.translate, Mt4.applyMatrix, Pt3s.rotateX, Pt3s.rotateY, Pt3s.rotateZ]
 
 end ScadVerif.C05
